@@ -1542,20 +1542,11 @@ def analyse(repo):
     for dotted, sites in an.module_sites.items():
         if sites:
             mods[dotted] = sites
-    for r in res.values():
-        r["flag_C04"] = [st for st in r["sites"] if not site_ok(st, r, SUB)]
-        r["flag_C44"] = [st for st in r["sites"] if not r["creation"] and not site_ok(st, r, APPLY, c44=True)]
+    for q, r in res.items():
+        rows = [(q, st, r["creation"], r["multicast"], r["hot"]) for st in r["sites"]]
+        r["flag_C04"] = [row[1] for row in rows if not row_ok(row, "C04")]
+        r["flag_C44"] = [row[1] for row in rows if not row_ok(row, "C44")]
     return {"entries": res, "aliases": aliases, "modules": mods}
-
-
-def site_ok(st, r, need, c44=False):
-    if st.kind in ("lock", "sched") or st.benign:
-        return True
-    if not c44 and (r["multicast"] or r["hot"]):
-        return True
-    if st.kind == "effect":
-        return True
-    return st.alloc >= need or st.mut <= st.alloc
 
 
 # --------------------------------------------------------------------------- Gallina
@@ -1566,6 +1557,30 @@ def gstr(s):
 
 def gbool(b):
     return "true" if b else "false"
+
+
+def table_rows(a):
+    """rows of alloc_table in emission order: (operator, Site, creation, multicast, hot)"""
+    ents = a["entries"]
+    rows = []
+    for q in sorted(ents):
+        r = ents[q]
+        for st in sorted(r["sites"], key=lambda s: (s.rel, s.line, s.name, s.kind)):
+            rows.append((q, st, r["creation"], r["multicast"], r["hot"]))
+    for dotted in sorted(a["modules"]):
+        for st in sorted(a["modules"][dotted], key=lambda s: (s.line, s.name)):
+            rows.append(("<module " + dotted + ">", st, False, False, False))
+    return rows
+
+
+def row_ok(row, prop):
+    """python twin of entry_ok_C04 / entry_ok_C44 (Ops/Closure.v); compared with Coq on every run"""
+    (q, st, cre, mc, hot) = row
+    if st.kind in ("lock", "sched") or st.benign:
+        return True
+    if prop == "C04":
+        return mc or hot or not (st.alloc < SUB and st.alloc < st.mut)
+    return cre or not (st.alloc < APPLY and st.alloc < st.mut)
 
 
 def translate(repo):
@@ -1596,17 +1611,10 @@ def translate(repo):
              "creation?, multicast?, hot?, benign (allowlisted)? *)")
     L.append("Definition alloc_table : list alloc_entry := [")
     rows = []
-    for q in sorted(ents):
-        r = ents[q]
-        for st in sorted(r["sites"], key=lambda s: (s.rel, s.line, s.name, s.kind)):
-            rows.append(f"  mk_site {gstr(q)} {gstr(st.rel)} {st.line} {gstr(st.name)} {KNAME[st.kind]} "
-                        f"{LNAME[st.alloc]} {LNAME[st.mut]} {gbool(r['creation'])} {gbool(r['multicast'])} "
-                        f"{gbool(r['hot'])} {gbool(bool(st.benign))}")
-    for dotted in sorted(a["modules"]):
-        for st in sorted(a["modules"][dotted], key=lambda s: (s.line, s.name)):
-            rows.append(f"  mk_site {gstr('<module ' + dotted + '>')} {gstr(st.rel)} {st.line} "
-                        f"{gstr(st.name)} {KNAME[st.kind]} {LNAME[st.alloc]} {LNAME[st.mut]} false false "
-                        f"false {gbool(bool(st.benign))}")
+    for (q, st, cre, mc, hot) in table_rows(a):
+        rows.append(f"  mk_site {gstr(q)} {gstr(st.rel)} {st.line} {gstr(st.name)} {KNAME[st.kind]} "
+                    f"{LNAME[st.alloc]} {LNAME[st.mut]} {gbool(cre)} {gbool(mc)} "
+                    f"{gbool(hot)} {gbool(bool(st.benign))}")
     L.append(";\n".join(rows))
     L.append("].")
     L.append("")
